@@ -365,6 +365,29 @@ def handle (j : Json) : R Json := do
     if bad.isNone then
       bad ← checkAcceptRows j
     return Json.mkObj [("bad", jopt (fun b : Nat × String => jarr [jnat b.1, Json.str b.2]) bad)]
+  | "lockrun" =>
+    -- the events of the real wrappers (acquire / check / call / move / release per thread) replayed on the lock-discipline system
+    let acts ← (← fldArr j "acts").mapM (fun a => do
+      match ← arr a with
+      | [.str "acquire", t] => return AccessLock.Act.acquire (← t.getNat?)
+      | [.str "release", t] => return AccessLock.Act.release (← t.getNat?)
+      | [.str "check", t, v] => return AccessLock.Act.check (← t.getNat?) (← v.getInt?)
+      | [.str "call", t, v] => return AccessLock.Act.call (← t.getNat?) (← v.getInt?)
+      | [.str "move", t, v] => return AccessLock.Act.move (← t.getNat?) (← v.getInt?)
+      | _ => throw s!"bad act {a.compress}")
+    match AccessLock.run (AccessLock.init (← fldInt j "max")) acts with
+    | none => return Json.mkObj [("ok", Json.bool false), ("calls", Json.null)]
+    | some s => return Json.mkObj [("ok", Json.bool true),
+        ("calls", jarr (s.calls.map (fun c => jarr [jint c.1, jint c.2]))),
+        ("within", Json.bool (decide (∀ c ∈ s.calls, c.1 ≤ c.2)))]
+  | "judge_call" =>
+    -- one driver call of the real code against the limits in force at that moment (the node as it was then)
+    let t ← parseTables (← fld j "oracle")
+    let n ← parseNode t (← fld j "node")
+    let m ← fldStr j "m"
+    match findModule n m with
+    | none => throw "judge_call: no such module"
+    | some mod => return Json.mkObj [("ok", Json.bool (callWithinLimitsB (mkEnv t .none) mod (← fldStr j "attr") (← fldStr j "v")))]
   | _ => throw s!"C04: unknown verb {k}"
 
 end Frappy.Drive.C04
